@@ -25,7 +25,7 @@ RULE = ('the real AsyncRunner and Interpreter run on real OS threads under a bat
         'by time.time(), and sleep overshoot. History checks (events stamped with a global sequence number): executed steps (listener ground '
         'truth) = steps handed to after_execute, each once, in order, <= 1 per cycle unless execute_all; every uid whose queue() returned is '
         'consumed exactly once (after a synchronous drain); delay-0 events FIFO; no step returns empty-handed while a delay-0 event is pending; '
-        'delayed events not before their due time; before_run/after_run once; <= 1 cycle begins after pause() returned; stop()/wait() return '
+        'delayed events not before their due time; before_run/after_run once; <= 1 cycle begins after pause() returned (none when the runner thread itself paused from before_run); stop()/wait() return '
         '(no deadlock); nothing executes after stop() returned. non-trivial = a completed run with >= 3 context switches between client and '
         'runner; distinct = distinct context-switch sequences (thread, yield-point kind)')
 COMPONENTS = {'real': ['sismic.runner.AsyncRunner', 'sismic.interpreter.Interpreter (queue, execute_once, listeners)', 'real OS threads (one runs at a time)'],
